@@ -717,7 +717,7 @@ Definition exit_run (f : nat) (p : N) (h : nat) (pidx : N) (acc : list (N * N)) 
 Lemma bt_run_S : forall f ptr h idx acc,
   bt_run (S f) heap ks vs ptr h idx acc =
   (n <- make_node heap ptr ;;
-   if idx <? bn_len n then
+   if idx <? eff_len n then
      if kv_slices_ok ks vs idx then
        match h with
        | O => bt_run f heap ks vs ptr O (idx + 1) (acc ++ [(ptr, idx)])
@@ -746,13 +746,18 @@ Proof.
   rewrite Nat2N.id, He. reflexivity.
 Qed.
 
+Lemma eff_len_exit : forall n, bn_len n <? eff_len n = false.
+Proof. intros n. unfold eff_len. apply N.ltb_ge. apply N.le_min_l. Qed.
+Lemma eff_len_cap : forall n, bn_len n <= BTREE_CAPACITY -> eff_len n = bn_len n.
+Proof. intros n H. unfold eff_len. apply N.min_l. exact H. Qed.
+
 (* leaving a node whose keys are exhausted: ascend, or stop at the root *)
 Lemma bt_exit : forall a n p pidx h f acc,
   alist_get N.eqb heap a = Some n -> bn_parent n = p -> (p <> 0 -> bn_parent_idx n = pidx) ->
   bt_run (S f) heap ks vs a h (bn_len n) acc = exit_run f p (S h) pidx acc.
 Proof.
   intros a n p pidx h f acc Hn Hp Hpi. rewrite bt_run_S, (make_node_ok _ _ Hn). cbn [bind].
-  rewrite N.ltb_irrefl. unfold exit_run. rewrite Hp.
+  rewrite eff_len_exit. unfold exit_run. rewrite Hp.
   destruct (N.eqb_spec p 0); [reflexivity|]. now rewrite Hpi.
 Qed.
 
@@ -779,7 +784,7 @@ Proof.
   intros a n p pidx Hn Hp Hpi Hcap. induction k as [|k IH]; intros i f acc Hik.
   - cbn [seqN map Nat.add]. rewrite app_nil_r. replace (N.of_nat i) with (bn_len n) by lia.
     now apply bt_exit.
-  - cbn [Nat.add]. rewrite bt_run_S, (make_node_ok _ _ Hn). cbn [bind].
+  - cbn [Nat.add]. rewrite bt_run_S, (make_node_ok _ _ Hn). cbn [bind]. rewrite (eff_len_cap n Hcap).
     destruct (N.ltb_spec (N.of_nat i) (bn_len n)); [|lia].
     rewrite kv_slices_ok_true by lia.
     replace (N.of_nat i + 1) with (N.of_nat (S i)) by lia.
@@ -817,7 +822,7 @@ Proof.
       - cbn [flat_rest size_rest Nat.add]. rewrite app_nil_r.
         cbn [length] in Hni. replace (N.of_nat ni) with (bn_len n) by lia.
         now apply bt_exit.
-      - cbn [length] in Hni. rewrite bt_run_S, (make_node_ok _ _ Hn). cbn [bind].
+      - cbn [length] in Hni. rewrite bt_run_S, (make_node_ok _ _ Hn). cbn [bind]. rewrite (eff_len_cap n Hcap).
         destruct (N.ltb_spec (N.of_nat ni) (bn_len n)); [|lia].
         rewrite kv_slices_ok_true by lia.
         destruct (Hsuf O k eq_refl) as [He Hrk]. rewrite Nat.add_0_r in He, Hrk.
@@ -868,10 +873,13 @@ Proof.
   transitivity (bt_run f heap_cyc 8 8 8 0 1 ([] ++ [(8, 0)])); [reflexivity | apply bt_cyc_spin].
 Qed.
 
-(* a len field above CAPACITY (corrupt node): the key slice is out of range *)
-Theorem bt_len_above_capacity_refuted :
-  bt_collect 100 [(8, mkNode 0 0 12 [] [])] 8 8 8 0 = Panic SITE_BT_SLICE.
+(* a len field above CAPACITY (memory that is not a node): before the repair the key slice was out of range
+   (Panic SITE_BT_SLICE); now the node is read as a full one *)
+Theorem bt_len_above_capacity_clamped :
+  bt_collect 100 [(8, mkNode 0 0 12 [] [])] 8 8 8 0 = Ok (map (fun i => (8, i)) (seqN 0 11)).
 Proof. vm_compute. reflexivity. Qed.
+
+
 
 Example bt_example :
   let heap := [(100, mkNode 0 0 2 [200;300;400;0;0;0;0;0;0;0;0;0] [20;40]);
@@ -1240,4 +1248,58 @@ Theorem enum_128bit_tag_refuted :
 Proof.
   exists [(Some (FData1, 0%Z), 1); (None, 0)], (repeat 0 16).
   split; vm_compute; reflexivity.
+Qed.
+
+
+(* ------------------------------------------------------------------------------------------ *)
+(* since the len clamp: for every heap (any memory contents), sizes, fuel and start handle the B-tree walk never
+   reaches the slice panic of Handle::data; the only panic site left is the edges array of a node that claims to
+   be internal although its edge words are missing in the model's heap (unreachable with real reads: the array
+   is part of the node) *)
+Lemma edge_panic_site : forall n i s, edge n i = Panic s -> s = SITE_BT_EDGE.
+Proof.
+  intros n i s. unfold edge. destruct (i <? BTREE_EDGES); [ destruct (nth_error (bn_edges n) (N.to_nat i)) | ];
+    intros H; inversion H; reflexivity.
+Qed.
+
+Lemma make_node_no_panic : forall heap p s, make_node heap p <> Panic s.
+Proof. intros heap p s. unfold make_node. destruct (alist_get N.eqb heap p); discriminate. Qed.
+
+Lemma first_leaf_panic_site : forall heap h e s, first_leaf heap h e = Panic s -> s = SITE_BT_EDGE.
+Proof.
+  intros heap h. induction h as [|h IH]; intros e s; cbn [first_leaf];
+    destruct (make_node heap e) as [n | c | s0 | ] eqn:Hm; cbn [bind]; try discriminate;
+    try (intros H; inversion H; subst; exfalso; eapply make_node_no_panic; eassumption).
+  destruct (edge n 0) as [e0 | c | s0 | ] eqn:He; cbn [bind]; try discriminate.
+  - apply IH.
+  - intros H. inversion H. subst. eapply edge_panic_site. eassumption.
+Qed.
+
+Theorem bt_run_panic_site : forall fuel heap ks vs ptr h idx acc s,
+  bt_run fuel heap ks vs ptr h idx acc = Panic s -> s = SITE_BT_EDGE.
+Proof.
+  induction fuel as [|f IH]; intros heap ks vs ptr h idx acc s; [ discriminate | ].
+  cbn [bt_run]. destruct (make_node heap ptr) as [n | c | s0 | ] eqn:Hm; cbn [bind]; try discriminate.
+  - destruct (N.ltb_spec idx (eff_len n)) as [Hlt | Hge].
+    + assert (Hk : kv_slices_ok ks vs idx = true).
+      { unfold kv_slices_ok. apply andb_true_iff. unfold eff_len in Hlt.
+        split; apply N.leb_le; apply N.mul_le_mono_l; lia. }
+      rewrite Hk. destruct h as [|h'].
+      * apply IH.
+      * destruct (edge n (idx + 1)) as [e | c | s0 | ] eqn:He; cbn [bind]; try discriminate.
+        -- destruct (first_leaf heap h' e) as [l | c | s0 | ] eqn:Hl; cbn [bind]; try discriminate.
+           ++ apply IH.
+           ++ intros H. inversion H. subst. eapply first_leaf_panic_site. eassumption.
+        -- intros H. inversion H. subst. eapply edge_panic_site. eassumption.
+    + destruct (bn_parent n =? 0); [ discriminate | apply IH ].
+  - intros H. inversion H. subst. exfalso. eapply make_node_no_panic. eassumption.
+Qed.
+
+Corollary bt_collect_no_slice_panic : forall fuel heap ks vs root h,
+  bt_collect fuel heap ks vs root h <> Panic SITE_BT_SLICE.
+Proof.
+  intros fuel heap ks vs root h H. unfold bt_collect in H.
+  destruct (first_leaf heap h root) as [l | c | s0 | ] eqn:Hl; cbn [bind] in H; try discriminate.
+  - apply bt_run_panic_site in H. discriminate.
+  - inversion H. subst. apply first_leaf_panic_site in Hl. discriminate.
 Qed.
